@@ -19,7 +19,7 @@ from mcheck.oracles import types as O
 
 ID = "C14"
 RULE = (
-    "12 trace families (unions of 2..7 members, Optional, TypedDict merges at k=3, same-named dict parameters of two "
+    "14 trace families (unions of 2..7 members, Optional, TypedDict merges at k=3, same-named dict parameters of two "
     "functions, generators with several yield types, methods with subclass receivers, > 5 tuple shapes) x {every "
     "permutation of the rows (<= 5 rows; 6..7 rows: rotations + reversal), every single duplication, every split into "
     "consecutive batches x {1,2} connections} x k in {0,3} x {default rewriter, --disable-type-rewriting}; set-iteration "
@@ -59,6 +59,8 @@ def families():
         "seven-classes": [(S.mfunc, {"x": t}, NT, None) for t in (int, str, float, bytes, S.Base, S.Other, NT)],
         "same-qualname-two-modules": [(S.mfunc, {"x": int}, int, None), (S2.mfunc, {"x": int}, int, None), (S2.mfunc, {"x": str}, str, None), (S.Base.meth, {"self": S.Base, "x": int}, int, None), (S2.Base.meth, {"self": S2.Base, "x": int}, int, None)],
         "nested-class-methods": [(S.Outer.Inner.imeth, {"self": S.Outer.Inner, "x": int}, int, None), (S.Outer.Inner.ismeth, {"x": str}, str, None), (S.Outer.Inner.Deep.dmeth, {"self": S.Outer.Inner.Deep, "x": int}, NT, None), (S.Outer.ometh, {"self": S.Outer, "x": float}, float, None)],
+        "typed-dict-subset-in-tuples": [(S.mfunc, {"x": Tu[mk_atd({"a": int, "b": str}, {})]}, int, None), (S.mfunc, {"x": Tu[mk_atd({"a": int}, {})]}, int, None), (S.wrapped.__wrapped__, {"x": D[int, mk_atd({"a": int, "b": str}, {})]}, int, None), (S.wrapped.__wrapped__, {"x": D[int, mk_atd({"a": int}, {})]}, int, None), (S.wrapped.__wrapped__, {"x": D[int, mk_atd({"a": int, "b": str, "c": int}, {})]}, int, None)],
+        "differing-argument-name-sets": [(S.Base.meth, {"self": S.Base, "x": int}, int, None), (S.Base.meth, {"self": S.Base}, int, None), (S.Base.meth, {"self": S.Derived, "x": str}, str, None), (S.mfunc, {}, int, None), (S.mfunc, {"x": float}, int, None)],
         "dict-unions": [(S.mfunc, {"x": D[str, int]}, D[str, int], None), (S.mfunc, {"x": D[str, str]}, D[str, str], None), (S.mfunc, {"x": D[int, int]}, L[int], None), (S.mfunc, {"x": L[int]}, L[str], None), (S.mfunc, {"x": L[typing_any()]}, L[typing_any()], None)],
     }
     return fam
@@ -367,6 +369,38 @@ def explore_family(ctx: Ctx, fname: str) -> Result:
                     del stubs_mod.set  # type: ignore[attr-defined]
                 else:
                     stubs_mod.set = old_set  # type: ignore[attr-defined]
+            # the other public entry point: a StubIndexBuilder fed in every split, with get_stubs() called between the parts
+            if rewriting is False:
+                from monkeytype.stubs import StubIndexBuilder
+
+                sib_ref = None
+                splits = [[list(range(n))]] + [[list(range(0, c)), list(range(c, n))] for c in range(1, n)] + [[[i] for i in range(n)], [[i] for i in reversed(range(n))]]
+                for sp in splits:
+                    res.states += 1
+                    res.evaluations += 1
+                    res.validated += 1
+                    res.transitions += 1
+                    case = {"family": fname, "k": k, "rewriting": rewriting, "history": 0, "policy": ["StubIndexBuilder", len(sp), 0]}
+                    try:
+                        sib = StubIndexBuilder(".*", k)
+                        for part in sp:
+                            for i in part:
+                                sib.log(traces[i])
+                            stubs_now = sib.get_stubs()
+                        text_sib = SEP.join(stubs_now[m].render() if m in stubs_now else "" for m in MODS)
+                    except Exception as e:  # noqa: BLE001
+                        res.violate(Violation(ID, "exception", "StubIndexBuilder:" + fname, case, f"StubIndexBuilder raised {e!r}"))
+                        continue
+                    bad, canon = canonical(text_sib, S)
+                    if bad:
+                        res.violate(Violation(ID, "syntax", fname, case, f"StubIndexBuilder: {bad}"))
+                        continue
+                    if sib_ref is None:
+                        sib_ref = canon
+                    elif canon != sib_ref:
+                        collide = bool(canon[3] or sib_ref[3])
+                        res.violate(Violation(ID, "order-dependence", ("typed-dict-class-name-collision:" if collide else "StubIndexBuilder:") + fname, case, f"StubIndexBuilder fed in parts {sp} (get_stubs() after each part) vs in one go: {diff_canon(sib_ref, canon)}"))
+                res.oblige("StubIndexBuilder-splits", True)
             # fresh interpreters with different hash seeds (per-process layout)
             if rewriting or not ctx.quick:
                 seeds = [0, 1, ctx.seed % 997 + 2]
@@ -390,6 +424,7 @@ def run(ctx: Ctx) -> Result:
     res = run_shards(ctx, work, names)
     res.obligations.setdefault("seam-consulted", False)
     res.obligations.setdefault("fresh-interpreters", False)
+    res.obligations.setdefault("StubIndexBuilder-splits", False)
     res.bounds.update({"families": len(names), "k": [0, 3], "hash_seeds": 3})
     return res
 
